@@ -85,3 +85,7 @@ def removed_first(new, old, pred):
         if pred(x):
             return same_items(new, old[:k] + old[k + 1:])
     return False
+
+
+def keys_of(d):
+    return set(d.keys())
